@@ -76,21 +76,26 @@ func ruleC17N1(r *Run) {
 		for _, bk := range boolKeys {
 			// a comparison k == "<bk>" and, on its true edge, comparisons v == "true" / v == "false" and an error return
 			okKey, okTrue, okFalse, okErr := false, false, false, false
-			allInstrs(um, func(ins ssa.Instruction) {
-				bo, ok := ins.(*ssa.BinOp)
-				if !ok || bo.Op != token.EQL {
-					return
-				}
-				if c, isC := bo.Y.(*ssa.Const); isC && c.Value != nil {
-					switch c.Value.ExactString() {
-					case fmt.Sprintf("%q", bk):
-						okKey = true
-					case `"true"`:
-						okTrue = true
-					case `"false"`:
-						okFalse = true
+			// (== or !=, the constant on either side; the conversion of the value may sit in an unexported helper)
+			p.withHelpers(um, 1, func(g *ssa.Function) {
+				allInstrs(g, func(ins ssa.Instruction) {
+					bo, ok := ins.(*ssa.BinOp)
+					if !ok || (bo.Op != token.EQL && bo.Op != token.NEQ) {
+						return
 					}
-				}
+					for _, side := range []ssa.Value{bo.X, bo.Y} {
+						if c, isC := side.(*ssa.Const); isC && c.Value != nil {
+							switch c.Value.ExactString() {
+							case fmt.Sprintf("%q", bk):
+								okKey = true
+							case `"true"`:
+								okTrue = true
+							case `"false"`:
+								okFalse = true
+							}
+						}
+					}
+				})
 			})
 			allInstrs(um, func(ins ssa.Instruction) {
 				if ret, ok := ins.(*ssa.Return); ok && nonNilErrReturn(ret) && true {
